@@ -236,6 +236,10 @@ def run(chk: Check) -> None:
                 gs = [0.5] + [min(max((rows[i][0] - rows[i - 1][0]).total_seconds(), 0.001), 600.0) for i in range(1, len(rows))]
                 gs += [260_000.0] + [1.0] * (len(tail) - 1)       # three days later
                 corpus.append(([f for _, f in rows] + [f for _, f in tail], gs))
+        # the same reply to two addressees, the first of them a known device that keeps its (older) copy
+        corpus.append((["RP --- 01:078710 18:199952 --:------ 000C 006 000D001C4456", " I --- 07:017494 --:------ 07:017494 1260 003 0013F4",
+                        "RP --- 01:078710 07:017494 --:------ 10A0 006 0013880003E8", " I --- 01:078710 --:------ 01:078710 1F09 003 FF0532",
+                        "RP --- 01:078710 18:199952 --:------ 10A0 006 0013880003E8"], [0.5, 0.2, 0.8, 7.6, 6.1]))
         for ep in range(n_ep + len(corpus)):
             fixed_gaps = None
             if ep < len(corpus):
@@ -248,8 +252,12 @@ def run(chk: Check) -> None:
                 continue
             # the same reply sent to two addressees (e.g. RP|10A0 to the DHW sensor, then to the gateway): the source keeps
             # the newer one, the first addressee its (older) copy
-            for _ in range(rnd.randrange(0, 4) if fixed_gaps is None else 0):
+            for _ in range(rnd.randrange(0, 4) if fixed_gaps is None else 1):
                 cands = [i for i, f in enumerate(h) if f[:2] == "RP" and f[17:19] == "18"]
+                if fixed_gaps is not None:
+                    # (corpus stretches: one such copy each, at the first reply some other device is known to ask for)
+                    cands = [i for i in cands if any(f[:2] == "RQ" and f[37:41] == h[i][37:41] and f[7:9] not in ("18", "--", "63")
+                                                     for rows in logs.values() for _, f in rows)][:1]
                 if not cands:
                     break
                 i = rnd.choice(cands)
@@ -259,7 +267,10 @@ def run(chk: Check) -> None:
                 if not askers:
                     continue
                 other = rnd.choice(askers)
-                h.insert(rnd.randrange(0, i + 1), h[i][:17] + other + h[i][26:])
+                at = rnd.randrange(0, i + 1) if fixed_gaps is None else i
+                h.insert(at, h[i][:17] + other + h[i][26:])
+                if fixed_gaps is not None:
+                    fixed_gaps = fixed_gaps[:at] + [0.3] + fixed_gaps[at:]
             cps = sorted(set(rnd.sample(range(len(h)), min(len(h), rnd.randint(1, 2))) + [len(h) - 1]))
             eav = rnd.random() < 0.35
             slog.rows.clear()
